@@ -24,6 +24,7 @@ type env struct {
 	defs M                 // shared sub-terms (header "defs")
 	memo map[string][]byte // memoised defs flagged as stable
 	stab map[string]bool   // names of defs that may be memoised once their captures exist
+	state map[string]int   // scripted-BMC counters (rule effects), readable as 16-bit little-endian terms
 }
 
 func newEnv(defs M, stable []any) *env {
@@ -203,6 +204,9 @@ func (e *env) eval(t M) []byte {
 			return e.eval(m(v))
 		}
 		return e.eval(m(t["default"]))
+	case "state16": // current value of a scripted-BMC counter, little-endian 16 bits
+		n := e.state[t["name"].(string)]
+		return []byte{byte(n), byte(n >> 8)}
 	case "len16":
 		n := len(e.eval(m(t["of"])))
 		return []byte{byte(n), byte(n >> 8)}
